@@ -29,10 +29,11 @@ const (
 	Committed              // after a successful COMMIT
 	RolledBack             // after ROLLBACK (explicit or because COMMIT was failed)
 	StmtDone               // after an Exec / Query returned (its error, if any, is not visible here)
+	BeginFailed            // the BEGIN itself failed after the Begin point was passed (no transaction is open)
 )
 
 func (k Kind) String() string {
-	return [...]string{"begin", "stmt", "commit", "committed", "rolledback", "stmtdone"}[k]
+	return [...]string{"begin", "stmt", "commit", "committed", "rolledback", "stmtdone", "beginfailed"}[k]
 }
 
 // Point describes one seam crossing.
@@ -110,6 +111,7 @@ func (c *conn) BeginTx(ctx context.Context, opts driver.TxOptions) (driver.Tx, e
 	}
 	t, err := c.SQLiteConn.BeginTx(ctx, opts)
 	if err != nil {
+		_ = call(Point{Kind: BeginFailed, Ctx: ctx})
 		return nil, err
 	}
 	c.inTx = true
